@@ -340,7 +340,7 @@ pub fn replay_file<P: Property>(p: &P, f: &Path) -> i32 {
             match p.check(&case, &mut st) {
                 Ok(()) => {
                     for (k, (_, ex)) in &st.known {
-                        println!("KNOWN-FINDING: property={} {} [{}]", p.id(), k, ex);
+                        println!("KNOWN-FINDING: property={} {} [{}]", p.id(), k, ex.replace('\n', "\\n"));
                     }
                     println!("replay {}: property {} holds on this input", f.display(), p.id());
                     0
@@ -417,7 +417,7 @@ pub fn build_report<P: Property>(p: &P, tier: Tier, seed: u64, out: RunOutcome) 
                 k,
                 crate::findings::describe(k),
                 n,
-                ex
+                ex.replace('\n', "\\n").replace('\r', "\\r")
             )
         })
         .collect();
